@@ -245,6 +245,8 @@ func (w *world) step1(ev string) {
 		w.svc.Put(name)
 	case "back":
 		w.svc.Back(name)
+	case "dup":
+		w.svc.PutDup(name)
 	case "failnext":
 		w.svc.FailNext(name, 1)
 	case "nfnext":
@@ -470,6 +472,9 @@ func events(cfg seqCfg) []string {
 	var out []string
 	for _, n := range cfg.Names {
 		out = append(out, "put:"+n, "back:"+n, "failnext:"+n, "secret:"+n, "read:"+n, "lookup:"+n)
+	}
+	if len(cfg.Declared) > 0 {
+		out = append(out, "dup:"+cfg.Declared[0])
 	}
 	for _, n := range cfg.Names {
 		out = append(out, "updfail:"+n)
